@@ -25,15 +25,16 @@ func (r Result) String() string { return [...]string{"unknown", "sat", "unsat"}[
 type Model map[string]*big.Rat
 
 type SolverKind struct {
-	Name string
-	Argv []string
-	Pre  string // sent after every (reset)
+	Name    string
+	Argv    []string
+	Pre     string // sent after every (reset)
+	OneShot bool   // spawn a fresh process per query (cvc5 is much stronger without --incremental)
 }
 
 var Kinds = []SolverKind{
-	{"z3", []string{"z3", "-in"}, ""},
-	{"z3-new", []string{"z3-new", "-in"}, ""},
-	{"cvc5", []string{"cvc5", "--incremental", "--produce-models", "--nl-ext-tplanes", "--lang=smt2"}, "(set-logic ALL)\n"},
+	{"z3", []string{"z3", "-in"}, "", false},
+	{"z3-new", []string{"z3-new", "-in"}, "", false},
+	{"cvc5", []string{"cvc5", "--produce-models", "--nl-ext-tplanes", "--lang=smt2"}, "(set-logic ALL)\n", true},
 }
 
 type proc struct {
@@ -126,7 +127,87 @@ func (pl *Pool) Close() {
 var marker = "__vp_done__"
 
 // run sends one self-contained script to one solver with a wall-clock limit.
+// runOneShot starts a fresh solver process for the query.
+func (pl *Pool) runOneShot(k SolverKind, script string, vars []*Term, limit time.Duration, cancel <-chan struct{}) (Result, Model, string) {
+	t0 := time.Now()
+	once := func(text string) ([]string, string) {
+		cmd := exec.Command(k.Argv[0], k.Argv[1:]...)
+		cmd.Stdin = strings.NewReader(text)
+		var out strings.Builder
+		cmd.Stdout = &out
+		cmd.Stderr = &out
+		if err := cmd.Start(); err != nil {
+			return nil, "start: " + err.Error()
+		}
+		done := make(chan error, 1)
+		go func() { done <- cmd.Wait() }()
+		select {
+		case <-done:
+		case <-time.After(limit + 500*time.Millisecond):
+			cmd.Process.Kill()
+			<-done
+			return nil, "timeout"
+		case <-cancel:
+			cmd.Process.Kill()
+			<-done
+			return nil, "cancelled"
+		}
+		var lines []string
+		for _, l := range strings.Split(out.String(), "\n") {
+			if l = strings.TrimSpace(l); l != "" {
+				lines = append(lines, l)
+			}
+		}
+		return lines, ""
+	}
+	lines, note := once(k.Pre + script)
+	Global.add(k.Name, time.Since(t0))
+	if note != "" {
+		return Unknown, nil, note
+	}
+	res := Unknown
+	for _, l := range lines {
+		if strings.Contains(l, "(error") {
+			atomic.AddInt64(&Global.Errors, 1)
+			return Unknown, nil, "solver error: " + l
+		}
+		switch l {
+		case "sat":
+			res = Sat
+		case "unsat":
+			res = Unsat
+		}
+	}
+	if res == Sat && len(vars) > 0 {
+		var gv strings.Builder
+		gv.WriteString("(get-value (")
+		for _, v := range vars {
+			gv.WriteString(sym(v.Name) + " ")
+		}
+		gv.WriteString("))\n")
+		l2, note2 := once(k.Pre + script + gv.String())
+		if note2 != "" {
+			return Unknown, nil, note2
+		}
+		var rest []string
+		seen := false
+		for _, l := range l2 {
+			if seen {
+				rest = append(rest, l)
+			}
+			if l == "sat" {
+				seen = true
+			}
+		}
+		return Sat, parseModel(strings.Join(rest, " ")), ""
+	}
+	return res, nil, ""
+}
+
 func (pl *Pool) run(k SolverKind, script string, vars []*Term, limit time.Duration, cancel <-chan struct{}) (Result, Model, string) {
+	if k.OneShot {
+		return pl.runOneShot(k, script, vars, limit, cancel)
+	}
 	p, err := pl.get(k)
 	if err != nil {
 		return Unknown, nil, "start: " + err.Error()
